@@ -12,6 +12,7 @@ import SnesVerif.Asm.Model
 import SnesVerif.Cpu.Impl
 import SnesVerif.System.RunUntil
 import SnesVerif.Cpu.Abs
+import SnesVerif.Cpu.Disasm
 
 def hexNat? (s : String) : Option Nat :=
   if s.isEmpty then none else
@@ -425,6 +426,21 @@ def spec (ws : List String) : String :=
     | _, _, _ => "bad-op"
   | _ => "bad-op"
 
+/-- `trace <p|a> <19 register fields> <seed> <ovl>`: the trace line for the instruction at the current PC -/
+def trace (ws : List String) : String :=
+  match ws with
+  | v :: rest =>
+    if rest.length != 21 then "bad-op" else
+    match parseRegs (rest.take 19), hexNat? (rest.getD 19 "") with
+    | some r, some seed =>
+      let ovl := parseOvl (rest.getD 20 "-")
+      let base : Nat → U8 := fun a => match ovl.find? (·.1 == a) with
+        | some (_, x) => BitVec.ofNat 8 x
+        | none => BitVec.ofNat 8 (hash8 seed.toUInt64 a.toUInt32).toNat
+      (traceRec (if v == "a" then Variant.alt else Variant.primary) r base).canon
+    | _, _ => "bad-op"
+  | _ => "bad-op"
+
 /-- `runu <p|a> <logger 0|1> <target> <maxCycles> <cbs a,b,..|-> <19 register fields> <seed> <ovl>`:
 outcome of `System.RunUntil` with the observer logs -/
 def runUntil (ws : List String) : String :=
@@ -455,6 +471,7 @@ def handle (line : String) : String :=
   let line := line.trimAscii.toString
   if line.startsWith "bus " then BusDrv.run ((line.drop 4).toString.splitOn ";") else
   if line.startsWith "runu " then CpuDrv.runUntil (((line.drop 5).toString.splitOn " ").filter (· ≠ "")) else
+  if line.startsWith "trace " then CpuDrv.trace (((line.drop 6).toString.splitOn " ").filter (· ≠ "")) else
   if line.startsWith "spec " then CpuDrv.spec (((line.drop 5).toString.splitOn " ").filter (· ≠ "")) else
   if line.startsWith "cpu " then CpuDrv.run (((line.drop 4).toString.splitOn " ").filter (· ≠ "")) else
   if line.startsWith "enc " then AsmDrv.enc (((line.drop 4).toString.splitOn " ").filter (· ≠ "")) else
